@@ -120,6 +120,17 @@ pub fn inputs_of_base(plan: &Plan, b: u64, corpus: &[(String, Vec<u8>)]) -> Vec<
                 if hostile::MODEL_OPS[op] == "nested_groups" && (b % 8 != 0 || r > 0) {
                     continue; // expensive input: one in eight bases
                 }
+                if hostile::MODEL_OPS[op] == "sparse_cel_table" {
+                    // expensive, and only meaningful for the memory monitor: table sizes 750..7500 (quick) / up to 8000 (thorough)
+                    if plan.mode != Mode::Mem || r > 0 || b % 16 != 0 {
+                        continue;
+                    }
+                    let n4 = if thorough && b == 0 { 32_000 } else { deep.min(30_000) };
+                    if let Some(i) = hostile::model_input(&base, op, &mut rng, n4) {
+                        out.push(i);
+                    }
+                    continue;
+                }
                 if let Some(i) = hostile::model_input(&base, op, &mut rng, deep) {
                     out.push(i);
                 }
@@ -130,7 +141,7 @@ pub fn inputs_of_base(plan: &Plan, b: u64, corpus: &[(String, Vec<u8>)]) -> Vec<
         out.extend(hostile::unstructured_inputs(&base, &mut rng, if thorough { 240 } else { 80 }));
     }
     // size cap of the exploration (deep nests are exempt up to 2 MiB)
-    out.retain(|i| i.bytes.len() <= plan.size_cap || (i.operator == "model:nested_groups" && i.bytes.len() <= 2 * 1024 * 1024));
+    out.retain(|i| i.bytes.len() <= plan.size_cap || ((i.operator == "model:nested_groups" || i.operator == "model:sparse_cel_table") && i.bytes.len() <= 2 * 1024 * 1024));
     out
 }
 
